@@ -367,7 +367,7 @@ fn clip(s: &str) -> String {
 
 // ---------------------------------------------------------------- size extremes
 
-pub const SIZE_FLOORS: &[&str] = &["size:blkw_ffff", "size:long_string", "size:distance_8000", "size:over_64k_statements"];
+pub const SIZE_FLOORS: &[&str] = &["size:blkw_ffff", "size:long_string", "size:distance_8000", "size:over_64k_statements", "size:literal_offset_far_line"];
 
 pub fn size_cases() -> Vec<(String, String)> {
     let mut v: Vec<(String, String)> = Vec::new();
@@ -406,6 +406,15 @@ pub fn size_cases() -> Vec<(String, String)> {
         l.push_str(&s);
         l.push_str("last br first\n");
         v.push((format!("size:over_64k_statements labelled {}", n), l));
+    }
+    // literal PC offsets on lines around the 15-bit and 16-bit line-number boundaries
+    for pad in [0x7FFCusize, 0x7FFD, 0x7FFE, 0x7FFF, 0x8000, 0xFFFB, 0xFFFC, 0xFFFD, 0xFFFE] {
+        for (mn, off) in [("br", 0i32), ("br", 1), ("br", -1), ("br", 255), ("br", -256), ("ld r1", 3), ("jsr", 1023), ("jsr", -1024), ("lea r2", -2)] {
+            v.push((
+                format!("size:literal_offset_far_line pad {:#x} {} #{}", pad, mn, off),
+                format!(".blkw x{:X}\n{} #{}\nhalt\n", pad, mn, off),
+            ));
+        }
     }
     v.push(("size:over_64k_statements fills".into(), ".fill x1\n".repeat(66_000) + "end_ halt\nbr end_\n"));
     v.push(("size:blkw_ffff then label".into(), ".blkw xFFFF\n.blkw x2\nz halt\nbr z\n".into()));
